@@ -338,3 +338,19 @@ func minMax(bits int, signed bool) (*big.Int, *big.Int) {
 	}
 	return big.NewInt(0), new(big.Int).Sub(pow2(bits), big.NewInt(1))
 }
+
+func isSpecType(t types.Type) bool {
+	switch t.(type) {
+	case *ArrT, *SortT, *MathT, *RefT:
+		return true
+	}
+	return false
+}
+
+// identicalT is types.Identical extended to the spec-only types.
+func identicalT(a, b types.Type) bool {
+	if isSpecType(a) || isSpecType(b) {
+		return isSpecType(a) && isSpecType(b) && a.String() == b.String()
+	}
+	return types.Identical(a, b)
+}
